@@ -49,7 +49,9 @@ def gen_scenario(rng, fam):
         via = rng.choice(('cli', 'clis', 'clis', 'factory', 'checkout',
                           'build')) if not real \
             else rng.choice(('cli', 'clis'))
-        if via in CODE_KINDS and not name_valid(name):
+        if via in CODE_KINDS and name == '/abs':
+            # (an absolute name would make the code under test work at the
+            # root of the file system: not in a harness)
             name = pool.pop()
             names[-1] = name
         # code tasks: the k-th call the task makes gets the k-th scripted
@@ -142,6 +144,10 @@ def expected(scn, proc_log=()):
         if rec['ident'] is not None:
             calls.setdefault(rec['ident'][0], []).append(rec)
     for i, tsk in enumerate(scn['tasks']):
+        if tsk['via'] in CODE_KINDS and not name_valid(full_name(tsk)):
+            own.append({'status': 'FAILED', 'started': 0, 'codes': None,
+                        'raised': True})
+            continue
         if tsk['via'] in CODE_KINDS:
             started, codes, raised, status = 0, [], False, 'DONE'
             for rec in calls.get(i, []):
